@@ -80,6 +80,13 @@ fn split_entries(text: &str) -> (Vec<&str>, Vec<Vec<&str>>) {
   (pre, es)
 }
 
+// same text -> same shard, so that the checker's count of DISTINCT texts is global
+fn shard_of(text: &str, shards: usize) -> usize {
+  let mut h: u64 = 0xcbf29ce484222325;
+  for b in text.as_bytes() { h ^= *b as u64; h = h.wrapping_mul(0x100000001b3); }
+  (h % (shards as u64)) as usize
+}
+
 fn emit_text_case(out: &mut impl Write, id: usize, family: &str, text: &str) -> usize {
   writeln!(out, "T {} {} {}", id, family, hx(text.as_bytes())).unwrap();
   writeln!(out, "K {} {}", id, real_kbd(text)).unwrap();
@@ -369,7 +376,7 @@ pub fn main(args: &[String]) -> i32 {
   let tier = a.get("tier").cloned().unwrap_or("quick".to_string());
   let repo = a.get("repo").cloned().unwrap_or("/repo".to_string());
   let thorough = tier == "thorough";
-  let n_texts: usize = a.get("texts").map(|s| s.parse().unwrap()).unwrap_or(if thorough { 40000 } else { 2500 });
+  let n_texts: usize = a.get("texts").map(|s| s.parse().unwrap()).unwrap_or(if thorough { 60000 } else { 6000 });
   let n_scen: usize = a.get("scenarios").map(|s| s.parse().unwrap()).unwrap_or(if thorough { 300 } else { 40 });
   let n_excl: usize = a.get("excl").map(|s| s.parse().unwrap()).unwrap_or(if thorough { 3000 } else { 300 });
   let sweep_hi: u32 = a.get("sweep-hi").map(|s| s.parse().unwrap()).unwrap_or(0x3100);
@@ -378,8 +385,8 @@ pub fn main(args: &[String]) -> i32 {
   let n_captured = lib.iter().filter(|e| e.cat == "captured").count();
   let mut rng = Rng::new(seed ^ 0x16);
   let mut stats: BTreeMap<String, u64> = BTreeMap::new();
-  let f = std::fs::File::create(format!("{}/cases.txt", out_dir)).unwrap();
-  let mut out = std::io::BufWriter::new(f);
+  let shards: usize = a.get("shards").map(|s| s.parse().unwrap()).unwrap_or(16);
+  let mut outs: Vec<std::io::BufWriter<std::fs::File>> = (0..shards).map(|i| std::io::BufWriter::new(std::fs::File::create(format!("{}/cases_{:02}.txt", out_dir, i)).unwrap())).collect();
   let mut id = 0usize;
   let mut n_entries = 0usize;
   let mut fam_count: BTreeMap<String, u64> = BTreeMap::new();
@@ -389,7 +396,7 @@ pub fn main(args: &[String]) -> i32 {
   if !cap.is_empty() {
     let mut s = String::new();
     for b in &cap { for l in b { s += l; s += "\n"; } s += "\n"; }
-    n_entries += emit_text_case(&mut out, id, "captured", &s); id += 1;
+    n_entries += emit_text_case(&mut outs[shard_of(&s, shards)], id, "captured", &s); id += 1;
     *fam_count.entry("captured".to_string()).or_insert(0) += 1;
     for _ in 0..(if thorough { 200 } else { 20 }) {
       let mut c = cap.clone();
@@ -398,7 +405,7 @@ pub fn main(args: &[String]) -> i32 {
       c.truncate(k);
       let mut s = String::new();
       for b in &c { for l in b { s += l; s += "\n"; } s += "\n"; }
-      n_entries += emit_text_case(&mut out, id, "captured", &s); id += 1;
+      n_entries += emit_text_case(&mut outs[shard_of(&s, shards)], id, "captured", &s); id += 1;
       *fam_count.entry("captured".to_string()).or_insert(0) += 1;
     }
   }
@@ -407,7 +414,7 @@ pub fn main(args: &[String]) -> i32 {
     let mut s = String::new();
     for l in &e.lines { s += l; s += "\n"; }
     s += "\n";
-    n_entries += emit_text_case(&mut out, id, "single", &s); id += 1;
+    n_entries += emit_text_case(&mut outs[shard_of(&s, shards)], id, "single", &s); id += 1;
     *fam_count.entry("single".to_string()).or_insert(0) += 1;
   }
   // ---- family assembled: random entries, random order, mutated field lines
@@ -420,7 +427,7 @@ pub fn main(args: &[String]) -> i32 {
       blocks.push(mutate_entry(&mut rng, e, &mut stats));
     }
     let s = assemble(&mut rng, &blocks, &mut stats);
-    n_entries += emit_text_case(&mut out, id, "assembled", &s); id += 1;
+    n_entries += emit_text_case(&mut outs[shard_of(&s, shards)], id, "assembled", &s); id += 1;
     *fam_count.entry("assembled".to_string()).or_insert(0) += 1;
   }
   // ---- family leak: a full entry followed by an entry that lacks fields
@@ -440,7 +447,7 @@ pub fn main(args: &[String]) -> i32 {
     if rng.chance(1, 3) { blocks.push(pick_entry(&mut rng, &lib).lines.clone()); }
     if rng.chance(1, 6) { blocks[1].remove(0); *stats.entry("leak_no_I_line".to_string()).or_insert(0) += 1; }
     let s = assemble(&mut rng, &blocks, &mut stats);
-    n_entries += emit_text_case(&mut out, id, "leak", &s); id += 1;
+    n_entries += emit_text_case(&mut outs[shard_of(&s, shards)], id, "leak", &s); id += 1;
     *fam_count.entry("leak".to_string()).or_insert(0) += 1;
   }
   // ---- family scalar: one text per Unicode scalar (trim_end / to_lowercase tables).
@@ -492,7 +499,7 @@ pub fn main(args: &[String]) -> i32 {
     }
     // the scalar right after the prefixes that are sliced by byte offset
     s += &format!("I: e\nN: Name=\"{}\"\nS: Sysfs={}\nB: EV={}\nB: KEY={}{}\n", cs, cs, cs, cs, KBD_USB);
-    n_entries += emit_text_case(&mut out, id, "scalar", &s); id += 1;
+    n_entries += emit_text_case(&mut outs[shard_of(&s, shards)], id, "scalar", &s); id += 1;
     *fam_count.entry("scalar".to_string()).or_insert(0) += 1;
   }
 
@@ -550,6 +557,7 @@ pub fn main(args: &[String]) -> i32 {
     for n in &names { line += &format!(" {}", hx(n.as_bytes())); }
     line += &format!(" {}", pats.len());
     for p in &pats { line += &format!(" {}", hx(p.as_bytes())); }
+    let out = &mut outs[id % shards];
     writeln!(out, "{}", line).unwrap();
     writeln!(out, "XA {} {}", id, enc(ra)).unwrap();
     writeln!(out, "XB {} {}", id, enc(rb)).unwrap();
@@ -557,7 +565,7 @@ pub fn main(args: &[String]) -> i32 {
     id += 1;
     n_excl_cases += 1;
   }
-  out.flush().unwrap();
+  for o in outs.iter_mut() { o.flush().unwrap(); }
 
   // ---- namespace scenarios
   let ns_dir = format!("{}/ns", out_dir);
@@ -817,6 +825,18 @@ pub fn ns_main(args: &[String]) -> i32 {
       else { std::os::unix::fs::symlink(target, p).unwrap(); }
     }
     writeln!(out, "NS {} {}", si, sp).unwrap();
+    // the hooks' answers on the scenario text, and WildMatch's on every
+    // (exclude pattern, device name) pair: oracle / base data for the checkers
+    let text_s = String::from_utf8_lossy(&sc.text).to_string();
+    writeln!(out, "NK {} {}", si, real_kbd(&text_s)).unwrap();
+    writeln!(out, "ND {} {}", si, real_dev(&text_s)).unwrap();
+    let mut glob_names: BTreeSet<String> = BTreeSet::new();
+    if let Ok(v) = catch_unwind(AssertUnwindSafe(|| extract_input_devices(&text_s))) { for (_, n, _) in v { glob_names.insert(n); } }
+    if let Ok(v) = catch_unwind(AssertUnwindSafe(|| extract_keyboards(&text_s))) { for (_, n) in v { glob_names.insert(n); } }
+    for p in &sc.excl { for n in &glob_names {
+      let r = catch_unwind(AssertUnwindSafe(|| WildMatch::new(p).matches(n))).unwrap_or(false);
+      writeln!(out, "GLOB {} {} {} {}", si, hx(p.as_bytes()), hx(n.as_bytes()), if r { 1 } else { 0 }).unwrap();
+    } }
     // (1) the public listing functions, in process
     let enc_path = |p: &PathBuf| hx(p.to_string_lossy().as_bytes());
     match catch_unwind(AssertUnwindSafe(|| crate::keyboard_listing::list_keyboards(false))) {
